@@ -353,6 +353,42 @@ def run(ctx):
                               f['name'], k, why, o['i'], clause, o['limit'], o['head'], o['problems'], json.dumps(o['rec'])[:400]))
     ctx.cov['observed_states_checked'] = len(lines)
 
+    # records of different sizes and mappings of different ages (layout-independent clauses, CounterFileLite.tla)
+    if not ctx.replay:
+        mruns = [dict(id=i + 1, seed=rng.randrange(1 << 30), kill=(i % 2 == 1)) for i in range(ctx.pick(80, 800))]
+        mrecs, rc, out = ctx.run_harness('./internal/counter', 'TestVerifMixedSizesC04', inp={'runs': mruns}, timeout=3000)
+        mres = {r['run']: r for r in mrecs if r.get('kind') == 'result'}
+        if len(mres) != len(mruns):
+            raise Infra('C04 mixed harness returned %d results for %d runs\n%s' % (len(mres), len(mruns), out[-3000:]))
+        ctx.cov['mixed_size_runs'] = len(mruns)
+        ctx.cov['evaluations'] += len(mruns)
+        for k, res in sorted(mres.items()):
+            if res['status'] != 'ok':
+                ctx.violation('C04:mixed:%s:%s' % (res['status'], short((res.get('fault') or {}).get('label', ''))), {'mixed_run': mruns[k - 1], 'fault': res.get('fault')},
+                              'records of different sizes, run %d: %s %s' % (k, res['status'], json.dumps(res.get('fault'))))
+            elif res.get('pending'):
+                ctx.violation('C04:mixed:survivor-unpersisted', {'mixed_run': mruns[k - 1], 'pending': res['pending']},
+                              'records of different sizes, run %d: surviving processes returned from Add but their increments are not in the file: %s' % (k, res['pending']))
+        mlines = [{x: o[x] for x in ('run', 'i', 't', 'size', 'limit', 'problems', 'vals', 'begun', 'final', 'survivors')} for o in mrecs if o.get('kind') == 'obs']
+        for i in range(0, len(mlines), 40000):
+            part = mlines[i:i + 40000]
+            r = ctx.tlc('CounterFileLite', files={'c04lite.ndjson': ndjson_text(part)}, workers=1, label='CounterFileLite[%d]' % (i // 40000), count=False, timeout=1500)
+            j = r.out.find('"C04LITE"')
+            if j < 0:
+                raise Infra('CounterFileLite: no verdict\n' + r.out[-2000:])
+            k2 = r.out.find('Computing initial states', j)
+            bad = tlaval.parse(r.out[r.out.rfind('<<', 0, j):k2 if k2 > 0 else len(r.out)].strip())[1]
+            seen = set()
+            for (idx, clause) in sorted(tuple(x) for x in bad):
+                o = part[idx - 1]
+                if (o['run'], clause) in seen:
+                    continue
+                seen.add((o['run'], clause))
+                ctx.violation('C04:mixed:%s' % clause, {'mixed_run': mruns[o['run'] - 1], 'state': o, 'previous': part[idx - 2] if idx > 1 else None},
+                              'records of different sizes, run %d step %d (%s): %s is false on the real file: size=%s limit=%s problems=%s vals=%s begun=%s' % (
+                                  o['run'], o['i'], o['t'], clause, o['size'], o['limit'], o['problems'], o['vals'], o['begun']))
+        ctx.cov['observed_states_checked'] = ctx.cov.get('observed_states_checked', 0) + len(mlines)
+
     # conformance with CounterFile.tla
     accepted, diverged = 0, []
     byfam = {}
